@@ -66,7 +66,7 @@ void h_ex_search(void)
 	char src[3];
 	char *p = src;
 	GHOST_INIT();
-	XSI.delim = nondet_bool() ? '/' : '?'; XSI.re_null = nondet_bool(); XSI.re_empty = nondet_bool(); XSI.n = nondet_int(); XSI.make_fail = nondet_bool(); XSI.old_dir = nondet_int();
+	XSI.delim = nondet_bool() ? '/' : '?'; XSI.re_null = 0;	/* re_read (unit rset.re_read_bounded) returns a pattern for every non-NUL delimiter */ XSI.re_empty = nondet_bool(); XSI.n = nondet_int(); XSI.make_fail = nondet_bool(); XSI.old_dir = nondet_int();
 	__CPROVER_assume(1 <= XSI.n && XSI.n <= 4 && -1 <= XSI.old_dir && XSI.old_dir <= 1);
 	xrow = nondet_int();
 	__CPROVER_assume(0 <= xrow && xrow < XSI.n);
